@@ -21,7 +21,7 @@ func (p c10) typeCase(c *fw.Case) {
 	case 0:
 		t = gen.Pick(r, typecorpus.Recursive)
 	case 1:
-		t = gen.Pick(r, typecorpus.Unsupported)
+		t = gen.Pick(r, append(append([]reflect.Type{}, typecorpus.Unsupported...), typecorpus.BadTags...))
 	case 2:
 		t = gen.Pick(r, append(append([]reflect.Type{}, typecorpus.PlainData...), typecorpus.WithStd...))
 	case 3:
@@ -61,6 +61,20 @@ func (p c10) typeCase(c *fw.Case) {
 	}
 	var s *jsonschema.Schema
 	var err error
+	if c.Idx%40 == 7 {
+		// the generic entry point on a few compile-time types
+		if !c.CallChecked("For[T]", "corpus types", func() {
+			_, _ = jsonschema.For[typecorpus.Scalars](opts)
+			_, _ = jsonschema.For[typecorpus.Rec](opts)
+			_, _ = jsonschema.For[typecorpus.BadChan](opts)
+			_, _ = jsonschema.For[*typecorpus.BadTagWord](opts)
+			_, _ = jsonschema.For[map[string][]typecorpus.EmbNested](opts)
+			_, _ = jsonschema.For[any](nil)
+		}) {
+			return
+		}
+		c.Eval(6)
+	}
 	if !c.CallChecked("ForType", map[string]any{"type": t.String(), "options": opts != nil}, func() { s, err = jsonschema.ForType(t, opts) }) {
 		return
 	}
